@@ -5,9 +5,9 @@ import numpy as np
 import pandas as pd
 
 LEVEL_NAMES = {
-    "f": ["fa", "fb", "fc", "fd"],
-    "g": ["g1", "g2", "g3", "g4"],
-    "h": ["hx", "hy", "hz", "hw"],
+    "f": ["fa", "fb", "fc", "fd", "fe", "ff", "fg", "fh"],
+    "g": ["g1", "g2", "g3", "g4", "g5", "g6", "g7", "g8"],
+    "h": ["hx", "hy", "hz", "hw", "hv", "hu", "ht", "hs"],
     "f2": ["p", "q", "r", "s"],
     "k": [9, 10, -2, 30],  # string order differs from numeric order
 }
